@@ -814,5 +814,8 @@ func (i *interpreter) lazyInit(pkg *ssa.Package, what string) {
 		i.initPkg(pkg)
 		return
 	}
+	if i.eng.ZeroGlobals[what] {
+		return
+	}
 	panic(unsupported{"read of global of uninitialised foreign package: " + what})
 }
